@@ -23,6 +23,11 @@ package iter
 
 // LimitIter: yields a value only when the underlying iterator does, counts what it yields, and never
 // asks the underlying iterator for more once the limit is reached
+// the constructor wraps exactly the iterator it is given, with exactly the limit it is given, nothing yielded yet
+//@ func Limit
+//@   prop C43
+//@   arith int
+//@   ensures[wraps_the_given_iterator_with_the_given_limit] result != nil && fresh(result) && result.iter == iter && result.limit == limit && result.count == 0
 //@ func (*LimitIter).Next
 //@   prop C43
 //@   arith int-assumed
@@ -84,3 +89,19 @@ package iter
 //@   requires f != nil
 //@   ensures[closes_the_underlying_iterator] called("invoke:Iter.Close#0") && result == res("invoke:Iter.Close#0", 0)
 //@   site[its_own_iterator] invoke:Iter.Close : arg0 == f.iter
+
+// ---- C43: the JSON iterator ends silently only at the end of the stream ------------------------------
+// (decoders are assumed not to return a wrapped io.EOF of their own)
+//@ func ext errors.Is
+//@   ensures result == (err == target)
+//@ func ext (*encoding/json.Decoder).Decode
+//@   writes-args
+//@ func (*JSONIter).Next
+//@   prop C43
+//@   arith int
+//@   requires j != nil
+//@   modifies all
+//@   ensures[done_stays_done] old(j.done) ==> !result
+//@   ensures[only_the_end_of_the_stream_ends_silently] !old(j.done) && !result ==> res("call:Decoder.Decode#0", 0) == io.EOF
+//@   ensures[a_failed_decode_is_an_error_result] !old(j.done) && res("call:Decoder.Decode#0", 0) != nil && res("call:Decoder.Decode#0", 0) != io.EOF ==> result && j.res.Err == res("call:Decoder.Decode#0", 0) && j.done
+//@   ensures[a_decoded_value_is_yielded] !old(j.done) && res("call:Decoder.Decode#0", 0) == nil ==> result && j.res.Err == nil
